@@ -16,7 +16,7 @@ import (
 
 func init() {
 	register(&Prop{ID: "C10", Run: runC10, MinNontrivial: 500,
-		Rule:        "cases = LogoutRequest/LogoutResponse records with 0-2 injected faults (Version, Destination incl. near-misses, Issuer absent/other/empty, Status absent/StatusCode absent/non-Success/second-level Success) x signing state (unsigned, trusted, untrusted, trusted cert + foreign key, tampered after signing, signature relocated into a child, genuine signed message wrapped by evil content with same or fresh ID) x raw/DEFLATE x skip on/off x issuer configured or not, plus kind confusion (SSO Response, AuthnRequest, the other logout kind, the SP's own output) and direct ValidateDecodedLogout* calls on hand-built structs; oracle: accept iff reference checks pass and (no root signature or it verifies), flag iff not skip and root signature verified, flagged => returned fields equal the signed record, typed error names a violated check, foreign kinds never accepted; non-trivial = document parsed and reached the checks; distinct by parameter tuple",
+		Rule:        "cases = LogoutRequest/LogoutResponse records with 0-2 injected faults (Version, Destination incl. near-misses, Issuer absent/other/empty, Status absent/StatusCode absent/non-Success/second-level Success) x signing state (unsigned, trusted, untrusted, trusted cert + foreign key, tampered after signing, signature relocated into a child, genuine signed message wrapped by evil content with same or fresh ID) x raw/DEFLATE x skip on/off x issuer configured or not, plus kind confusion (SSO Response, AuthnRequest, the other logout kind, the SP's own output) and direct ValidateDecodedLogout* calls on hand-built structs; oracle: accept iff reference checks pass and (no root signature or it verifies), flag iff not skip and root signature verified, flagged => returned fields equal the signed record, typed error names a violated check, foreign kinds never accepted; non-trivial = document parsed and reached the checks; distinct by parameter tuple; configured SLO / issuer values with metacharacters and the same near-miss values; unsigned messages against a nil certificate store",
 		Assumptions: []string{"for a relocated signature only the implication 'flagged => fields equal the signed record' is asserted (goxmldsig accepts an enveloped signature anywhere below the root)"}})
 }
 
